@@ -470,6 +470,11 @@ var extWrites = map[string]int{
 	"sort.Strings": 0, "sort.Ints": 0, "sort.Float64s": 0, "sort.Slice": 0, "sort.SliceStable": 0, "sort.Sort": 0, "sort.Stable": 0,
 	"slices.Sort": 0, "slices.SortFunc": 0, "slices.SortStableFunc": 0, "slices.Reverse": 0,
 	"math/rand.Shuffle": 1,
+	// append-style library functions write into the spare capacity of their destination (a package-level scratch array
+	// sliced [:0] is shared memory)
+	"strconv.AppendFloat": 0, "strconv.AppendInt": 0, "strconv.AppendUint": 0, "strconv.AppendBool": 0, "strconv.AppendQuote": 0, "strconv.AppendQuoteRune": 0, "strconv.AppendQuoteToASCII": 0,
+	"fmt.Append": 0, "fmt.Appendf": 0, "fmt.Appendln": 0, "unicode/utf8.AppendRune": 0, "encoding/hex.AppendEncode": 0, "encoding/base64.(*Encoding).AppendEncode": 1,
+	"time.(Time).AppendFormat": 1, "(time.Time).AppendFormat": 1,
 	"(*sync.Map).Store": 0, "(*sync.Map).LoadOrStore": 0, "(*sync.Map).Delete": 0, "(*sync.Map).Swap": 0, "(*sync.Map).CompareAndSwap": 0, "(*sync.Map).LoadAndDelete": 0, "(*sync.Map).Clear": 0,
 	"(*sync/atomic.Bool).Store": 0, "(*sync/atomic.Int64).Store": 0, "(*sync/atomic.Int64).Add": 0, "(*sync/atomic.Int32).Store": 0, "(*sync/atomic.Int32).Add": 0, "(*sync/atomic.Value).Store": 0, "(*sync/atomic.Pointer).Store": 0,
 	"(*sync.Mutex).Lock": -1, "(*sync.Mutex).Unlock": -1, "(*sync.RWMutex).Lock": -1, "(*sync.RWMutex).Unlock": -1, "(*sync.RWMutex).RLock": -1, "(*sync.RWMutex).RUnlock": -1,
